@@ -127,7 +127,8 @@ impl WatermarkGenerator {
             }
 
             WatermarkStrategy::BoundedOutOfOrder { max_delay } => {
-                let delay_ms = max_delay.as_millis() as u64;
+                // A delay beyond the u64 millisecond range is larger than any timestamp
+                let delay_ms = u64::try_from(max_delay.as_millis()).unwrap_or(u64::MAX);
                 let new_ts = self.max_timestamp.saturating_sub(delay_ms);
 
                 if new_ts > self.current_watermark.timestamp {
